@@ -88,6 +88,17 @@ type unsupportedTree struct {
 	Notify   chan int
 }
 
+// the recursive field declared before the unsupported one
+type unsupportedLink struct {
+	Name  string
+	Next  *unsupportedLink
+	Ready chan int
+}
+
+// set per history: every unmarshal of the history uses the declared recursive unsupported types
+// (the second and later calls then reach the type through wrappers cached by the first)
+var reuseRecursiveBias bool
+
 type reuseOp struct {
 	desc string
 	run  func(inst interface{}) string // observation on the given instance
@@ -179,7 +190,11 @@ func genDocOp(rng *Rng, cfg *configuration.Configuration, format string, unmarsh
 		}
 		what = "untyped"
 	}
-	switch rng.Intn(8) {
+	sel := rng.Intn(8)
+	if reuseRecursiveBias {
+		sel = 2
+	}
+	switch sel {
 	case 0:
 		if len(doc) > 3 {
 			doc = doc[:1+rng.Intn(len(doc)-1)]
@@ -192,10 +207,35 @@ func genDocOp(rng *Rng, cfg *configuration.Configuration, format string, unmarsh
 			what += " bitflip"
 		}
 	case 2:
-		if rng.P(1, 2) {
+		tsel := rng.Intn(4)
+		if reuseRecursiveBias {
+			tsel = 2
+		}
+		switch tsel {
+		case 0:
 			template = unsupportedA{}
-		} else {
+		case 1:
 			template = freshUnsupported(rng).Interface()
+		default:
+			// a declared recursive type with an unsupported field, reached directly or through the
+			// pointer / slice / struct wrappers that are cached while its own generation is in flight;
+			// the document holds real values at those positions
+			template = []interface{}{unsupportedTree{}, &unsupportedTree{}, unsupportedLink{}, &unsupportedLink{}, struct{ Root *unsupportedLink }{},
+				[]*unsupportedTree{}, struct{ Root *unsupportedTree }{}, []struct{ T *unsupportedLink }{}}[rng.Intn(8)]
+			text := []string{
+				`c0 {"name"="a" "children"=[{"name"="b"}] "next"={"name"="c" "next"={"name"="d"}} "root"={"name"="e" "next"={"name"="f"} "children"=[{"name"="g"}]} "t"={"name"="h"}}`,
+				`c0 [{"name"="a" "children"=[{"name"="b"}] "next"={"name"="c"} "root"={"name"="e"} "t"={"name"="h" "next"={"name"="i"}}}]`,
+			}[rng.Intn(2)]
+			if _, isSlice := template.([]*unsupportedTree); isSlice {
+				text = `c0 [{"name"="a" "children"=[{"name"="b"}]} {"name"="c"}]`
+			}
+			doc = []byte(text)
+			if format == "cbe" {
+				if evs, err := cteDecode(doc, cfg, false); err == nil {
+					doc, _ = cbeEncode(evs, cfg)
+				}
+			}
+			what = "recursive"
 		}
 		what += " unsupported-template"
 	case 3:
@@ -371,6 +411,7 @@ func runC16(r *Run) {
 	r.each(func(idx int, rng *Rng) {
 		kind := kinds[idx%len(kinds)]
 		n := 2 + rng.Intn(7)
+		reuseRecursiveBias = rng.P(1, 4)
 		inst := kind.fresh()
 		var hist []string
 		for i := 0; i < n; i++ {
